@@ -68,6 +68,15 @@ def senc (args : List String) : String :=
     | _, _, _ => "bad-args"
   | _ => "bad-arity"
 
+/-- `sencz key C n`: the payload for `n` zero bytes (large payloads without shipping them over the wire) -/
+def sencz (args : List String) : String :=
+  match args with
+  | [key, c, n] =>
+    match unhex key, nat? c, nat? n with
+    | some k, some C, some n => sum (encrypt chacha C k (List.replicate n 0))
+    | _, _, _ => "bad-args"
+  | _ => "bad-arity"
+
 def sdec (args : List String) : String :=
   match args with
   | [key, c, ct] =>
@@ -84,6 +93,7 @@ def handle (op : String) (args : List String) : Option String :=
   | "sw" => some (sw args)
   | "sr" => some (sr args)
   | "senc" => some (senc args)
+  | "sencz" => some (sencz args)
   | "sdec" => some (sdec args)
   | _ => none
 end Stream
